@@ -30,6 +30,14 @@ LOOP_REACTIONS = [
 ]
 
 
+# carbon-unbalanced reactions whose carbon-richer side also lists molecules without a heavy atom (H2, H+, H-) or with a
+# single one (water, HCl, ammonia): every listed molecule belongs to the reported molecule list
+NO_HEAVY_ATOM_RIDERS = [
+    "COCc1ccccc1.[H][H]>>Cc1ccccc1", "CC(=O)OCC.[H+]>>CC(=O)O", "CCOC(=O)c1ccccc1.[H-].[Na+]>>OCc1ccccc1", "CC(=O)OCC.O.[H+]>>CC(=O)O",
+    "CCOCC.[H][H].[H][H]>>CCO", "CCO>>CCOCC.[H][H]", "CC(=O)O>>CC(=O)OC(C)=O.[H+].[OH-]", "CCBr.[H-]>>C", "CC(=O)NC.Cl.[H][H]>>CN",
+]
+
+
 # ------------------------------------------------------------------------------------------------ helpers
 def pat(n):
     """a SMARTS with n atoms (n = -1: unparsable)"""
@@ -914,7 +922,7 @@ def unsolved_sample(ctx, n, n_jobs=8, maxlen=130):
 def real_batches(ctx, n, n_jobs=8):
     rng = ctx.rng
     rxns = unsolved_sample(ctx, n, n_jobs) + [CANCEL_WITNESS, "CC(=O)Cl.OCC>>CC(=O)OCC", "CCO>>CC=O", "C>>C",
-                                              "CC(=O)OCC.CCN.Brc1ccccc1>>CC(=O)NCCc1ccccc1"]
+                                              "CC(=O)OCC.CCN.Brc1ccccc1>>CC(=O)NCCc1ccccc1"] + NO_HEAVY_ATOM_RIDERS
     rng.shuffle(rxns)
     rows = prepare_rows(rxns, n_jobs)
     ctx.count("real:rows-solved-before-search", sum(1 for r in rows if r["solved"]))
